@@ -17,6 +17,7 @@ Tie (b): harness/c15_stress.cc under ThreadSanitizer and ASan/UBSan (free-runnin
 Data-race freedom of the compiled C++ is carried by (0)+(a)+(b): partial.
 """
 import glob
+import subprocess
 import hashlib
 import json
 import os
@@ -144,8 +145,21 @@ def run(chk, replay=None):
 
     # ---- (a) schedules on the real code ---------------------------------------------------------------
     exe = C.build_harness("c15_sched", "asan")
-    rc, so, se = C.run_harness(exe, sched_args, timeout=6000)
+    hung = False
+    try:
+        rc, so, se = C.run_harness(exe, sched_args, timeout=(900 if chk.tier == "quick" else 3600))
+    except subprocess.TimeoutExpired as te:     # a blocked schedule must never block the check
+        hung = True
+        dec = lambda b: (b or b"").decode("utf-8", "replace") if isinstance(b, (bytes, type(None))) else b
+        rc, so, se = 0, dec(te.stdout), dec(te.stderr)
     trace = so.splitlines()
+    if hung:
+        starts0 = [i for i, l in enumerate(trace) if l.startswith("init")]
+        last = trace[starts0[-1]:] if starts0 else trace[-40:]
+        chk.violation("the schedule harness did not terminate on this tree (a thread never reached the scheduling "
+                      "point the extracted lock discipline announces, or the code blocks): the correspondence with "
+                      "the protocol model can no longer be checked; last schedule:\n" + "\n".join(last[-40:]),
+                      {"sched_args": sched_args, "schedule": last[-80:], "stderr": se[-2000:]}, no_input=True)
     if rc != 0:
         head, frames = sanitizer_summary(se)
         starts0 = [i for i, l in enumerate(trace) if l.startswith("init")]
